@@ -286,6 +286,11 @@ static bool apply(World& w, const Op& op)
     }
   }
   w.hist += (w.hist.empty() ? "" : " ") + ops(op);
+  if ((n_trans % 4099) == 1) {
+    std::string r;
+    for (int x : m.R()) r += "f" + std::to_string(x) + " ";
+    sample(std::string("{\"backend\":\"") + bk_name + "\",\"seed_fillers\":" + std::to_string(g_seed) + ",\"history\":\"" + w.hist + "\",\"model_registered\":\"" + r + "\"}", 6);
+  }
   long long before = g_nviol;
   check_state(w, kase, opk);
   // a state in which the property is already violated is not expanded further: everything after it would only
